@@ -845,3 +845,152 @@ Proof.
   destruct (R j ltac:(lia)) as [Lj Rj]. cbn [plus] in Rj.
   rewrite last_nth', Lj. unfold sdc_coef_last. apply (Rj (n - 1)%nat). lia.
 Qed.
+
+(* ---- non-vacuity of the hypotheses of [order_gain]: midpoint collocation (M = 1, Q = 1/2) with the
+   implicit-Euler preconditioner (QD = 1) at z = 1/2:  U^k = 4/3 - (1/3)(-1/2)^k,  U_c = 4/3,  g_k = -(2/3)(-1)^k *)
+Example order_gain_instance :
+  let n := 1%nat in
+  let Qm : mat := fun _ _ => 1 # 2 in
+  let QD : nat -> mat := fun _ _ _ => 1 in
+  let z : Q := 1 # 2 in
+  let U : nat -> vec := fun k _ => (4 # 3) - (1 # 3) * zpow (- (1 # 2)) k in
+  let Uc : vec := fun _ => 4 # 3 in
+  let G : nat -> vec := fun k _ => - (2 # 3) * zpow (- (1)) k in
+  (forall k, lower_tri n (QD k)) /\ (forall k i, (i < n)%nat -> ~ 1 - z * QD k i i == 0) /\
+  veq (U 0%nat) ones /\ (forall k, is_sweep n Qm (QD k) z (U k) (U (S k))) /\ is_coll n Qm z Uc /\
+  (forall i, G 0%nat i == - mv n Qm Uc i) /\
+  (forall k i, (i < n)%nat -> G (S k) i - z * mv n (QD k) (G (S k)) i == mv n (msub Qm (QD k)) (G k) i) /\
+  (forall k i, (i < n)%nat -> U k i - Uc i == zpow z (S k) * G k i).
+Proof.
+  cbv zeta.
+  assert (H1 : forall k : nat, lower_tri 1 ((fun _ _ _ => 1) k)) by (intros k i j Hij; lia).
+  assert (H2 : forall k i : nat, (i < 1)%nat -> ~ 1 - (1 # 2) * 1 == 0) by (intros k i _ E; discriminate E).
+  assert (H3 : veq (fun _ : nat => (4 # 3) - (1 # 3) * zpow (- (1 # 2)) 0) ones) by (intro i; reflexivity).
+  assert (H4 : forall k, is_sweep 1 (fun _ _ => 1 # 2) (fun _ _ => 1) (1 # 2)
+                 (fun _ => (4 # 3) - (1 # 3) * zpow (- (1 # 2)) k) (fun _ => (4 # 3) - (1 # 3) * zpow (- (1 # 2)) (S k))).
+  { intros k i. unfold mv, msub. cbn [bigsum zpow]. ring. }
+  assert (H5 : is_coll 1 (fun _ _ => 1 # 2) (1 # 2) (fun _ => 4 # 3)) by (intro i; unfold mv; cbn [bigsum]; ring).
+  assert (H6 : forall i : nat, - (2 # 3) * zpow (- (1)) 0 == - mv 1 (fun _ _ => 1 # 2) (fun _ => 4 # 3) i)
+    by (intro i; unfold mv; cbn [bigsum zpow]; ring).
+  assert (H7 : forall k i : nat, (i < 1)%nat ->
+     - (2 # 3) * zpow (- (1)) (S k) - (1 # 2) * mv 1 (fun _ _ => 1) (fun _ => - (2 # 3) * zpow (- (1)) (S k)) i
+     == mv 1 (msub (fun _ _ => 1 # 2) (fun _ _ => 1)) (fun _ => - (2 # 3) * zpow (- (1)) k) i)
+    by (intros k i _; unfold mv, msub; cbn [bigsum zpow]; ring).
+  repeat split; try assumption.
+  exact (order_gain 1 (fun _ _ => 1 # 2) (fun _ _ _ => 1) (1 # 2)
+           (fun k _ => (4 # 3) - (1 # 3) * zpow (- (1 # 2)) k) (fun k _ => - (2 # 3) * zpow (- (1)) k) (fun _ => 4 # 3)
+           H1 H2 H3 H4 H5 H6 H7).
+Qed.
+
+(* ================= IMEX: the bivariate table is the expansion of (zI AI + zE AE)^j ================== *)
+
+Lemma mv_madd n A B x i : mv n (madd A B) x i == mv n A x i + mv n B x i.
+Proof. unfold mv, madd. rewrite <- bigsum_add. apply bigsum_ext. intros; ring. Qed.
+
+Lemma mv_mscal n c A x i : mv n (mscal c A) x i == c * mv n A x i.
+Proof. unfold mv, mscal. rewrite <- bigsum_scal. apply bigsum_ext. intros; ring. Qed.
+
+Lemma bigsum_split_shift m f P R :
+  f 0%nat == R 0%nat -> (forall a, (a < m)%nat -> f (S a) == P a + R (S a)) -> f (S m) == P m ->
+  bigsum (S (S m)) f == bigsum (S m) P + bigsum (S m) R.
+Proof.
+  intros H0 Hmid Hlast. rewrite bigsum_shift. rewrite (bigsum_shift m R).
+  change (bigsum (S m) (fun j => f (S j))) with (bigsum m (fun j => f (S j)) + f (S m)).
+  rewrite (bigsum_ext m (fun j => f (S j)) (fun j => P j + R (S j)) Hmid), bigsum_add.
+  cbn [bigsum]. rewrite H0, Hlast. ring.
+Qed.
+
+(* homogeneous part of total degree j *)
+Definition Hdeg (n : nat) (AI AE : mat) (zI zE : Q) (j : nat) : vec :=
+  fun i => bigsum (S j) (fun a => zpow zI a * zpow zE (j - a) * Vtab n AI AE a (j - a) i).
+
+Theorem eval_table_is_power n AI AE zI zE : forall j,
+  veq (Hdeg n AI AE zI zE j) (mpow n (madd (mscal zI AI) (mscal zE AE)) j ones).
+Proof.
+  induction j as [|j IH]; intro i.
+  - unfold Hdeg. cbn [bigsum zpow mpow Nat.sub Vtab]. unfold ones. ring.
+  - cbn [mpow]. rewrite <- (mv_ext n _ _ _ (veq_veqn n _ _ IH) i).
+    rewrite mv_madd, !mv_mscal. unfold Hdeg at 2 3. rewrite !mv_bigsum.
+    unfold Hdeg.
+    rewrite (bigsum_split_shift j _
+               (fun a => zI * (zpow zI a * zpow zE (j - a) * mv n AI (Vtab n AI AE a (j - a)) i))
+               (fun a => zE * (zpow zI a * zpow zE (j - a) * mv n AE (Vtab n AI AE a (j - a)) i))).
+    + rewrite !bigsum_scal. reflexivity.
+    + rewrite !Nat.sub_0_r. rewrite Vtab_0S. cbn [zpow]. ring.
+    + intros a Ha. replace (S j - S a)%nat with (S (j - S a)) by lia.
+      replace (j - a)%nat with (S (j - S a)) by lia. rewrite Vtab_SS. cbn [zpow]. ring.
+    + replace (S j - S j)%nat with 0%nat by lia. replace (j - j)%nat with 0%nat by lia. rewrite Vtab_S0. cbn [zpow]. ring.
+Qed.
+
+Lemma zpow_one k : zpow 1 k == 1.
+Proof. induction k as [|k IH]; cbn [zpow]; [reflexivity|]. rewrite IH. ring. Qed.
+
+(* IMEX stage system  Y = 1 + zI AI Y + zE AE Y :  Y is the sum of the homogeneous parts built from the
+   bivariate table, plus an explicit remainder of total degree N *)
+Theorem imex_stage_expansion n AI AE zI zE Y :
+  (forall i, Y i == 1 + (zI * mv n AI Y i + zE * mv n AE Y i)) ->
+  forall N i, Y i == bigsum N (fun j => Hdeg n AI AE zI zE j i)
+                    + mpow n (madd (mscal zI AI) (mscal zE AE)) N Y i.
+Proof.
+  intros HY N i.
+  assert (HY' : forall i, Y i == ones i + 1 * mv n (madd (mscal zI AI) (mscal zE AE)) Y i).
+  { intro i0. rewrite mv_madd, !mv_mscal, (HY i0). unfold ones. ring. }
+  rewrite (neumann_expansion n _ ones 1 Y HY' N i). rewrite zpow_one.
+  rewrite (bigsum_ext N _ (fun j => Hdeg n AI AE zI zE j i)).
+  - ring.
+  - intros j _. rewrite zpow_one, (eval_table_is_power n AI AE zI zE j i). ring.
+Qed.
+
+Lemma vdot_zero n b : vdot n b vzero == 0.
+Proof. unfold vdot, vzero. apply bigsum_zero. intros; ring. Qed.
+
+Lemma vdot_bigsum n b (c : nat -> Q) (T : nat -> vec) N :
+  vdot n b (fun j => bigsum N (fun m => c m * T m j)) == bigsum N (fun m => c m * vdot n b (T m)).
+Proof.
+  induction N as [|N IH]; cbn [bigsum].
+  - apply (vdot_zero n b).
+  - rewrite vdot_add, IH, vdot_scal. reflexivity.
+Qed.
+
+(* homogeneous part of total degree j of the IMEX stability function *)
+Definition Cdeg (n : nat) (AI AE : mat) (bI bE : vec) (zI zE : Q) (j : nat) : Q :=
+  bigsum (S j) (fun a => zpow zI a * zpow zE (j - a) * imex_coef n AI AE bI bE a (j - a)).
+
+Lemma Cdeg_S n AI AE bI bE zI zE j :
+  zI * vdot n bI (Hdeg n AI AE zI zE j) + zE * vdot n bE (Hdeg n AI AE zI zE j)
+  == Cdeg n AI AE bI bE zI zE (S j).
+Proof.
+  unfold Hdeg. rewrite !vdot_bigsum. unfold Cdeg.
+  rewrite (bigsum_split_shift j _
+             (fun a => zI * (zpow zI a * zpow zE (j - a) * vdot n bI (Vtab n AI AE a (j - a))))
+             (fun a => zE * (zpow zI a * zpow zE (j - a) * vdot n bE (Vtab n AI AE a (j - a))))).
+  - rewrite !bigsum_scal. reflexivity.
+  - rewrite !Nat.sub_0_r. cbn [imex_coef zpow]. ring.
+  - intros a Ha. replace (S j - S a)%nat with (S (j - S a)) by lia.
+    replace (j - a)%nat with (S (j - S a)) by lia. cbn [imex_coef zpow]. ring.
+  - replace (S j - S j)%nat with 0%nat by lia. replace (j - j)%nat with 0%nat by lia. cbn [imex_coef zpow]. ring.
+Qed.
+
+(* the IMEX stability function  R = 1 + zI bI.Y + zE bE.Y  is the sum of its homogeneous parts, whose
+   coefficients are exactly [imex_coef] (what check_order_imex compares with 1/(a! b!)) *)
+Theorem imex_stability_expansion n AI AE bI bE zI zE Y :
+  (forall i, Y i == 1 + (zI * mv n AI Y i + zE * mv n AE Y i)) ->
+  forall N,
+  1 + (zI * vdot n bI Y + zE * vdot n bE Y)
+  == bigsum (S N) (fun j => Cdeg n AI AE bI bE zI zE j)
+     + (zI * vdot n bI (mpow n (madd (mscal zI AI) (mscal zE AE)) N Y)
+        + zE * vdot n bE (mpow n (madd (mscal zI AI) (mscal zE AE)) N Y)).
+Proof.
+  intros HY N.
+  assert (E : forall b, vdot n b Y == bigsum N (fun j => vdot n b (Hdeg n AI AE zI zE j))
+                                     + vdot n b (mpow n (madd (mscal zI AI) (mscal zE AE)) N Y)).
+  { intro b. rewrite (vdot_ext n b Y _ (veq_veqn n _ _ (imex_stage_expansion n AI AE zI zE Y HY N))).
+    rewrite vdot_add. apply Qplus_comp; [|reflexivity].
+    rewrite <- (bigsum_ext N (fun m => 1 * vdot n b (Hdeg n AI AE zI zE m))) by (intros; ring).
+    rewrite <- vdot_bigsum. apply vdot_ext, veq_veqn. intro i. apply bigsum_ext. intros; ring. }
+  rewrite (E bI), (E bE). rewrite bigsum_shift.
+  rewrite <- (bigsum_ext N _ _ (fun j _ => Cdeg_S n AI AE bI bE zI zE j)).
+  rewrite bigsum_add, !bigsum_scal.
+  assert (C0 : Cdeg n AI AE bI bE zI zE 0 == 1) by (unfold Cdeg; cbn [bigsum zpow Nat.sub imex_coef]; ring).
+  rewrite C0. ring.
+Qed.
